@@ -377,9 +377,12 @@ impl Uci {
                         util::verif::mark(&format!("S{verif_search_id}:exit"));
                     }
 
+                    // Release the search state before announcing the move: a GUI may react to the
+                    // bestmove line at once (setoption, ucinewgame, go) and must find the state free.
+                    drop(persistent_state_handle);
+
                     #[cfg(jgilchrist_tcheran_verif)]
                     {
-                        drop(persistent_state_handle);
                         util::verif::done(&format!("S{verif_search_id}:exit"));
                         util::verif::gate(&format!("S{verif_search_id}:finish"));
                         util::verif::mark(&format!("S{verif_search_id}:finish"));
